@@ -18,6 +18,7 @@
 (*   5. model-level laws (MC).                                                                           *)
 (* All geometry is exact integer arithmetic on user-space coordinates scaled by S.                       *)
 EXTENDS Lattice, Mat, TLC, Json, Randomization
+Sq0(x) == x * x
 
 CONSTANTS Mode,     \* "gen" documents | "rt" round-trip drawings | "mc" model-level laws on documents
           Num       \* number of scenarios
@@ -52,11 +53,12 @@ Joins == <<"miter", "bevel", "round", "miter">>
 Limits == <<"2", "4", "10", "10">>
 Caps == <<"butt", "round", "square">>
 Num10(v) == CASE v = "1" -> 1 [] v = "2" -> 2 [] v = "3" -> 3 [] v = "4" -> 4 [] v = "10" -> 10 [] OTHER -> 0
-Props == <<"fill", "stroke", "stroke-width", "stroke-linejoin", "stroke-miterlimit", "stroke-linecap">>
+FillRules == <<"evenodd", "nonzero">>
+Props == <<"fill", "stroke", "stroke-width", "stroke-linejoin", "stroke-miterlimit", "stroke-linecap", "fill-rule">>
 Vals(p) == CASE p = "fill" -> Cols [] p = "stroke" -> Cols [] p = "stroke-width" -> Widths [] p = "stroke-linejoin" -> Joins
-             [] p = "stroke-miterlimit" -> Limits [] p = "stroke-linecap" -> Caps
+             [] p = "stroke-miterlimit" -> Limits [] p = "stroke-linecap" -> Caps [] p = "fill-rule" -> FillRules
 Initial(p) == CASE p = "fill" -> "black" [] p = "stroke" -> "none" [] p = "stroke-width" -> "1" [] p = "stroke-linejoin" -> "miter"
-                [] p = "stroke-miterlimit" -> "4" [] p = "stroke-linecap" -> "butt"
+                [] p = "stroke-miterlimit" -> "4" [] p = "stroke-linecap" -> "butt" [] p = "fill-rule" -> "nonzero"
 
 Decl(p, v) == [p |-> p, v |-> v]
 Op(f, a) == [f |-> f, a |-> a]
@@ -91,10 +93,13 @@ StyleAttrs(o, slot, shape) ==
         fs == Yes(o, 5, 4, 0)
         sa == IF shape THEN Yes(o, 7, 2, 0) ELSE Yes(o, 7, 3, 0)
         ss == Yes(o, 9, 5, 0)
+        \* fill-rule (an inherited property): 0 attribute evenodd, 1 attribute nonzero (resets an inherited evenodd), 2 in the style attribute
+        fr == At(o, 4) \div 12
         sty == If1(fs, Decl("fill", Pk(o, 6, Cols))) \o If1(ss, Decl("stroke", Pk(o, 10, Cols)))
                \o If1(Yes(o, 13, 6, 0), Decl("stroke-width", Pk(o, 14, Widths)))
                \o If1(Yes(o, 20, 8, 0), Decl("stroke-linejoin", Pk(o, 21, Joins)))
                \o If1(Yes(o, 20, 8, 1), Decl("stroke-miterlimit", Pk(o, 21, Limits)))
+               \o If1(fr = 2, Decl("fill-rule", Pk(o, 6, FillRules)))
         tl == TList(o, 22)
         base == If1(fa, Attr("fill", Pk(o, 4, Cols), <<>>, <<>>))
                 \o If1(sa, Attr("stroke", Pk(o, 8, Cols), <<>>, <<>>))
@@ -102,6 +107,7 @@ StyleAttrs(o, slot, shape) ==
                 \o If1(Yes(o, 15, 3, 0), Attr("stroke-linejoin", Pk(o, 16, Joins), <<>>, <<>>))
                 \o If1(Yes(o, 17, 3, 0), Attr("stroke-miterlimit", Pk(o, 18, Limits), <<>>, <<>>))
                 \o If1(Yes(o, 19, 5, 0), Attr("stroke-linecap", Pk(o, 19, Caps), <<>>, <<>>))
+                \o If1(fr <= 1, Attr("fill-rule", FillRules[fr + 1], <<>>, <<>>))
                 \o If1(Len(sty) > 0, Attr("style", "", Perm(sty, At(o, 9)), <<>>))
                 \o If1(Len(ClassOf(o)) > 0, Attr("class", JoinStr(ClassOf(o)), <<>>, <<>>))
                 \o If1(IdOf(o, slot) # "", Attr("id", IdOf(o, slot), <<>>, <<>>))
@@ -154,8 +160,20 @@ GenPath(o, i) == LET n == Pk(o, i, <<1, 2, 2, 3, 3>>)
                                  [] OTHER -> <<>>
                      \* (a relative moveto at the start of the path data counts from the origin: SVG 8.3.2)
                      first == Cmd(IF At(o, i) % 2 = 0 THEN "M" ELSE "m", <<1 + (At(o, i + 1) % 5), 1 + (At(o, i + 2) % 5)>>)
-                 IN <<first>> \o segs \o z \o second
+                     \* one path in ten: two nested squares wound in the same direction (winding 2 inside: nonzero fills it, evenodd does not)
+                     nest == <<first, Cmd("h", <<4>>), Cmd("v", <<4>>), Cmd("h", << 0 - 4 >>), Cmd("z", <<>>), Cmd("m", <<1, 1>>), Cmd("h", <<2>>), Cmd("v", <<2>>), Cmd("h", << 0 - 2 >>), Cmd("z", <<>>)>>
+                 IN IF (At(o, i) \div 2) % 10 = 0 THEN nest ELSE <<first>> \o segs \o z \o second
 
+Units == <<"mm", "mm", "px", "", "", "cm", "in", "pt", "pc", "absent">>
+\* reference size for percentages (SVG 7.10: the viewBox size in user units, without viewBox the viewport in px); <<0, 0>>: not an integer
+RefWH == LET o == 0 unit == Pk(o, 1, Units) hasvb == unit = "absent" \/ ~Yes(o, 4, 6, 0)
+             vbw == 8 + (At(o, 2) % 6)  vbh == 8 + (At(o, 3) % 6)  m == Pk(o, 12, <<1, 1, 2, 3>>) IN
+         IF hasvb THEN <<vbw, vbh>>    \* with a viewBox, percentages refer to its size in user units (SVG 8.9; fixed in 6f37fc7: they were taken from the px viewport and scaled again)
+         ELSE IF unit \in {"px", ""} THEN <<vbw * m, IF Yes(o, 13, 10, 0) THEN vbh * m + vbw ELSE vbh * m>> ELSE <<0, 0>>
+ISqrt(q) == CHOOSE k \in 0..400 : k * k <= q /\ (k + 1) * (k + 1) > q
+\* bounds (scaled by S) of pct% of the normalised diagonal sqrt((W^2 + H^2) / 2)  (SVG 7.10: percentages that are neither horizontal nor vertical)
+PctLo(pct) == ISqrt((S * S * pct * pct * (Sq0(RefWH[1]) + Sq0(RefWH[2]))) \div 20000)
+PctHi(pct) == LET n == S * S * pct * pct * (Sq0(RefWH[1]) + Sq0(RefWH[2])) lo == PctLo(pct) IN IF n % 20000 = 0 /\ lo * lo = n \div 20000 THEN lo ELSE lo + 1
 Elem(kind, depth, geo, pts, segs, attrs, cls, id) ==
     [kind |-> kind, depth |-> depth, geo |-> geo, pts |-> pts, segs |-> segs, attrs |-> attrs, cls |-> cls, id |-> id]
 Shape(o, slot, depth) ==
@@ -165,7 +183,7 @@ Shape(o, slot, depth) ==
         rr == Pk(o, 37, <<0, 0, 0, 1, 1, 2, 3>>)
         r == IF 2 * rr <= w /\ 2 * rr <= h THEN rr ELSE 0
         geo == CASE kind = "rect"    -> <<a % 6, b % 6, w, h, r, IF r = 0 THEN 0 ELSE Pk(o, 38, <<0, 1, 2>>)>>    \* x y w h r mode (0: rx only, 1: ry only, 2: both)
-                 [] kind = "circle"  -> <<1 + (a % 7), 1 + (b % 7), 1 + (c % 4)>>
+                 [] kind = "circle"  -> <<1 + (a % 7), 1 + (b % 7), 1 + (c % 4), IF RefWH[1] = 0 THEN 0 ELSE IF RefWH[1] + RefWH[2] > 26 THEN Pk(o, 38, <<0, 0, 3, 5, 8, 10>>) ELSE Pk(o, 38, <<0, 0, 10, 20, 25, 30>>)>>   \* cx cy r pct (pct > 0: r = "pct%")
                  [] kind = "ellipse" -> <<1 + (a % 7), 1 + (b % 7), 1 + (c % 4), 1 + (d % 4)>>
                  [] kind = "line"    -> <<a % 7, b % 7>> \o Distinct2(<<a % 7, b % 7>>, <<c % 7, d % 7>>)
                  [] OTHER -> <<>>
@@ -195,10 +213,10 @@ Structs == << << <<"s",1>>, <<"s",1>>, <<"s",1>> >>,
               << <<"s",1>>, <<"g",1>>, <<"g",2>>, <<"g",3>>, <<"s",4>>, <<"s",3>> >> >>
 RECURSIVE CountKind(_, _, _)
 CountKind(st, i, k) == IF i = 0 THEN 0 ELSE (IF st[i][1] = k THEN 1 ELSE 0) + CountKind(st, i - 1, k)
-Units == <<"mm", "mm", "px", "", "", "cm", "in", "pt", "pc", "absent">>
 
 RootElem == LET o == DOCo
                 at == If1(Yes(o, 8, 6, 0), Attr("fill", Pk(o, 9, Cols), <<>>, <<>>)) \o If1(Yes(o, 10, 8, 0), Attr("stroke", Pk(o, 11, Cols), <<>>, <<>>))
+                      \o If1(At(o, 9) \div 12 = 0, Attr("fill-rule", "evenodd", <<>>, <<>>))
             IN Elem("svg", 0, <<>>, <<>>, <<>>, at, <<>>, "")
 Elems == LET st == Pk(DOCo, 7, Structs) IN
          <<RootElem>> \o [i \in 1..Len(st) |-> IF st[i][1] = "g" THEN Group(GRPo(CountKind(st, i, "g")), i, st[i][2])
@@ -218,7 +236,7 @@ GenRule(k, es) == LET o == RULo + 5 * (k - 1)
                       sk == Pk(o, 3, <<"t", "c", "i", "tc", "t", "c", "i", "star">>)
                       cls == IF Len(t.cls) > 0 THEN t.cls[Len(t.cls)] ELSE "a"
                       id == IF t.id # "" THEN t.id ELSE "i9"
-                      p1 == Pk(ot, 4, <<"fill", "fill", "stroke", "stroke", "stroke-width", "stroke-linejoin", "stroke-miterlimit", "fill">>)
+                      p1 == Pk(ot, 4, <<"fill", "fill", "stroke", "stroke", "stroke-width", "stroke-linejoin", "stroke-miterlimit", "fill-rule">>)
                       d1 == Decl(p1, Pk(o, 5, Vals(p1)))
                       d2 == If1(Yes(o, 5, 3, 0) /\ p1 # "stroke", Decl("stroke", Pk(o, 4, Cols)))
                       base == CASE sk = "t" -> Rule(t.kind, "", "", <<d1>> \o d2) [] sk = "c" -> Rule("", cls, "", <<d1>> \o d2)
@@ -422,9 +440,12 @@ RECURSIVE Flat(_, _)
 Flat(ss, i) == IF i > Len(ss) THEN <<>> ELSE ss[i] \o Flat(ss, i + 1)
 \* normal form of an element outline
 NF(e) ==
-    CASE e.kind = "circle"  -> [kind |-> "circle", c |-> Sc(P2(e.geo[1], e.geo[2])), ra |-> S * e.geo[3], rb |-> S * e.geo[3],
+    CASE e.kind = "circle" /\ e.geo[4] > 0 -> LET lo == PctLo(e.geo[4]) hi == PctHi(e.geo[4]) IN       \* radius known between lo and hi
+                               [kind |-> "circle", c |-> Sc(P2(e.geo[1], e.geo[2])), ra |-> lo, rb |-> lo, lo |-> lo, hi |-> hi,
+                                box |-> <<S * e.geo[1] - hi, S * e.geo[2] - hi, S * e.geo[1] + hi, S * e.geo[2] + hi>>]
+      [] e.kind = "circle"  -> [kind |-> "circle", c |-> Sc(P2(e.geo[1], e.geo[2])), ra |-> S * e.geo[3], rb |-> S * e.geo[3], lo |-> S * e.geo[3], hi |-> S * e.geo[3],
                                 box |-> <<S * (e.geo[1] - e.geo[3]), S * (e.geo[2] - e.geo[3]), S * (e.geo[1] + e.geo[3]), S * (e.geo[2] + e.geo[3])>>]
-      [] e.kind = "ellipse" -> [kind |-> IF e.geo[3] = e.geo[4] THEN "circle" ELSE "ellipse", c |-> Sc(P2(e.geo[1], e.geo[2])), ra |-> S * e.geo[3], rb |-> S * e.geo[4],
+      [] e.kind = "ellipse" -> [kind |-> IF e.geo[3] = e.geo[4] THEN "circle" ELSE "ellipse", c |-> Sc(P2(e.geo[1], e.geo[2])), ra |-> S * e.geo[3], rb |-> S * e.geo[4], lo |-> S * e.geo[3], hi |-> S * e.geo[3],
                                 box |-> <<S * (e.geo[1] - e.geo[3]), S * (e.geo[2] - e.geo[4]), S * (e.geo[1] + e.geo[3]), S * (e.geo[2] + e.geo[4])>>]
       [] e.kind = "rect" /\ e.geo[5] > 0 ->
                                [kind |-> "rrect", c |-> <<0, 0>>, ra |-> S * e.geo[5], rb |-> S * e.geo[5],
@@ -476,7 +497,7 @@ InBox(s, b, m) == s[1] > b[1] + m /\ s[1] < b[3] - m /\ s[2] > b[2] + m /\ s[2] 
 
 FillClass(n, s, rule) ==
     CASE n.kind = "poly" -> IF PolyFree(n, s) THEN CFREE ELSE IF Fills(rule, PolyWind(n, s)) THEN CIN ELSE COUT
-      [] n.kind = "circle" -> IF Len2(n.c, s) < Sq(n.ra - Tol) THEN CIN ELSE IF Len2(n.c, s) > Sq(n.ra + Tol) THEN COUT ELSE CFREE
+      [] n.kind = "circle" -> IF n.lo > Tol /\ Len2(n.c, s) < Sq(n.lo - Tol) THEN CIN ELSE IF Len2(n.c, s) > Sq(n.hi + Tol) THEN COUT ELSE CFREE
       [] n.kind = "ellipse" -> IF EllSide(n.c, n.ra - Tol, n.rb - Tol, s) < 0 THEN CIN ELSE IF EllSide(n.c, n.ra + Tol, n.rb + Tol, s) > 0 THEN COUT ELSE CFREE
       [] n.kind = "rrect" -> LET cc == Corner(n, s) IN
             IF cc = <<>> THEN (IF InBox(s, n.box, Tol) THEN CIN ELSE IF ~InBox(s, n.box, -Tol) THEN COUT ELSE CFREE)
@@ -522,8 +543,8 @@ StrokeClass(n, st, s) ==
     LET h == st.hw IN
     CASE n.kind = "poly" -> IF PolyStrokeIn(n, st, s) THEN CIN ELSE IF PolyStrokeOut(n, st, s) THEN COUT ELSE CFREE
       [] n.kind = "circle" -> LET d == Len2(n.c, s) IN
-            IF d < Sq(n.ra + h - Tol) /\ (n.ra <= h - Tol \/ d > Sq(n.ra - h + Tol)) THEN CIN
-            ELSE IF d > Sq(n.ra + h + Tol) \/ (n.ra > h + Tol /\ d < Sq(n.ra - h - Tol)) THEN COUT ELSE CFREE
+            IF d < Sq(n.lo + h - Tol) /\ (n.hi <= h - Tol \/ d > Sq(n.hi - h + Tol)) THEN CIN
+            ELSE IF d > Sq(n.hi + h + Tol) \/ (n.lo > h + Tol /\ d < Sq(n.lo - h - Tol)) THEN COUT ELSE CFREE
       [] n.kind = "ellipse" -> LET d == h - Tol IN
             IF EllSide(n.c, n.ra + d, n.rb + d, s) < 0 /\ (MinR(n) <= d \/ EllSide(n.c, n.ra - d, n.rb - d, s) > 0) THEN CIN
             ELSE IF Len2(n.c, s) > Sq(MaxR(n) + h + Tol) \/ (MinR(n) > h + Tol /\ Len2(n.c, s) < Sq(MinR(n) - h - Tol)) THEN COUT ELSE CFREE
@@ -581,14 +602,19 @@ DocFeat(d) == (IF d.hasvb /\ (d.vb[1] # 0 \/ d.vb[2] # 0) THEN {"vb-origin"} ELS
 \* geometric features of an outline: two consecutive line segments that fold back onto each other (canvas' path builder merges those: C10)
 GeoFeat(n) == IF n.kind = "poly" /\ \E i \in 1..Len(n.joints) : LET j == n.joints[i] IN j.exact /\ Cross(j.a, j.v, j.b) = 0 /\ DotP(j.v, j.a, j.b) > 0
               THEN {"line-reversal"} ELSE {}
+\* a percentage radius in a document whose viewBox size differs from the viewport size in px (the two references a reader may confuse)
+PctFeat(d, e) == IF e.kind = "circle" /\ e.geo[4] > 0 /\ d.hasvb /\ ~(d.unit = "absent" \/ (d.unit \in {"px", ""} /\ ViewW(d) = d.vb[3] /\ ViewH(d) = d.vb[4]))
+                 THEN {"pct-viewbox"} ELSE {}
+FillProps == {"fill", "fill-rule"}
 IsShape(e) == e.kind \notin {"svg", "g"}
 ElemEvents(d, i) ==
     LET es == d.es  e == es[i]  n == NF(e)  map == SMap(d, CTM(es, i))
         fill == Computed(d.rules, es, i, "fill")  stroke == Computed(d.rules, es, i, "stroke")
+        rule == IF Computed(d.rules, es, i, "fill-rule") = "evenodd" THEN 1 ELSE 0
         st == StrokeStyle(Num10(Computed(d.rules, es, i, "stroke-width")), Computed(d.rules, es, i, "stroke-linejoin"),
                           Num10(Computed(d.rules, es, i, "stroke-miterlimit")), Computed(d.rules, es, i, "stroke-linecap"))
-    IN (IF fill # "none" THEN <<FillEvent(i, n, fill, 0, map, Haz(d.rules, es, i, {"fill"}) \cup GeoFeat(n), [col |-> {RGBA(v) : v \in CandVals(d.rules, es, i, "fill")}])>> ELSE <<>>)
-       \o (IF stroke # "none" THEN <<StrokeEvent(i, n, stroke, st, map, Haz(d.rules, es, i, StrokeProps) \cup GeoFeat(n),
+    IN (IF fill # "none" THEN <<FillEvent(i, n, fill, rule, map, Haz(d.rules, es, i, FillProps) \cup GeoFeat(n) \cup PctFeat(d, e), [col |-> {RGBA(v) : v \in CandVals(d.rules, es, i, "fill")}])>> ELSE <<>>)
+       \o (IF stroke # "none" THEN <<StrokeEvent(i, n, stroke, st, map, Haz(d.rules, es, i, StrokeProps) \cup GeoFeat(n) \cup PctFeat(d, e),
                      [col |-> {RGBA(v) : v \in CandVals(d.rules, es, i, "stroke")}, w |-> {Num10(v) : v \in CandVals(d.rules, es, i, "stroke-width")},
                       join |-> CandVals(d.rules, es, i, "stroke-linejoin"), lim |-> {Num10(v) : v \in CandVals(d.rules, es, i, "stroke-miterlimit")},
                       cap |-> CandVals(d.rules, es, i, "stroke-linecap")])>> ELSE <<>>)
@@ -596,14 +622,14 @@ RECURSIVE DocEvents(_, _)
 DocEvents(d, i) == IF i > Len(d.es) THEN <<>> ELSE (IF IsShape(d.es[i]) THEN ElemEvents(d, i) ELSE <<>>) \o DocEvents(d, i + 1)
 DocSize(d) == LET w == IF Explicit(d.wmode) THEN MM(d.unit, d.w) ELSE MM("px", d.vb[3])
                   h == IF Explicit(d.hmode) THEN MM(d.unit, d.h) ELSE MM("px", d.vb[4]) IN <<w[1], w[2], h[1], h[2]>>
-AllHaz(d) == UNION {Haz(d.rules, d.es, i, {"fill"} \cup StrokeProps) : i \in {j \in 1..Len(d.es) : IsShape(d.es[j])}}
+AllHaz(d) == UNION {Haz(d.rules, d.es, i, FillProps \cup StrokeProps) : i \in {j \in 1..Len(d.es) : IsShape(d.es[j])}}
 \* every shape element with the order-sensitivity features of all its paint properties and, when it has no fill paint, the cells of
 \* its outline (fp): the driver pairs recorded layers with elements by geometry, independently of how they are painted
 NoCands == [col |-> {}]
 \* the vertices (end points of the segments, scaled by S) of a polygonal / path outline: a second means of recognising its layer
 Vertices(n) == IF n.kind = "poly" THEN UNION {{n.contours[k][j] : j \in 1..Len(n.contours[k])} : k \in 1..Len(n.contours)} ELSE {}
-ShapeRec(d, i) == LET es == d.es n == NF(es[i]) nofill == Computed(d.rules, es, i, "fill") = "none" IN
-    [el |-> i, haz |-> Haz(d.rules, es, i, {"fill"} \cup StrokeProps) \cup GeoFeat(n), vs |-> Vertices(n),
+ShapeRec(d, i) == LET es == d.es n == NF(es[i]) nofill == Computed(d.rules, es, i, "fill") = "none" \/ Computed(d.rules, es, i, "fill-rule") = "evenodd" IN
+    [el |-> i, haz |-> Haz(d.rules, es, i, FillProps \cup StrokeProps) \cup GeoFeat(n) \cup PctFeat(d, es[i]), vs |-> Vertices(n),
      fp |-> IF nofill THEN <<FillEvent(i, n, "black", 0, SMap(d, CTM(es, i)), {}, NoCands)>> ELSE <<>>]
 RECURSIVE DocShapes(_, _)
 DocShapes(d, i) == IF i > Len(d.es) THEN <<>> ELSE (IF IsShape(d.es[i]) THEN <<ShapeRec(d, i)>> ELSE <<>>) \o DocShapes(d, i + 1)
